@@ -89,6 +89,13 @@ class DocGen(object):
         r = self.rng
         step_type, alias = kind_alias
         text = "s%d %s" % (self.uid(), self.words())
+        if r.random() < 0.2:
+            # column-aligned step text: a run of several ordinary blanks between two words is part of the text
+            parts = text.split(" ")
+            k = r.randrange(1, len(parts))
+            text = " ".join(parts[:k]) + " " * r.randint(2, 4) + " ".join(parts[k:])
+        if r.random() < 0.12:
+            text += r.choice([":", "::", " ::", " std::"])      # (reST marker / C++ scope: text that ENDS with colons)
         st = {"kw": alias.rstrip(" ") if alias.endswith(" ") else alias, "alias": alias, "alias_type": step_type, "text": text,
               "nospace": not alias.endswith(" ")}
         x = r.random()
